@@ -6,6 +6,7 @@
    stopped cfg srv r    : the next version is unavailable (or carries the version already trusted). *)
 From ToughV Require Export Model.Base Model.Sig Model.Deleg Model.Client.
 From ToughV Require Import Proofs.ClientP Proofs.SitesP.
+From ToughV Require Export Proofs.RollbackP Proofs.SitesP Proofs.WalkP.
 Export ClientP.
 
 Theorem C02_chain : forall c s rp w',
@@ -54,3 +55,27 @@ Proof.
   repeat split; auto. destruct Hl as [->|(rs & ->)]; [exact Vtg|rewrite tg_set_roles_sigs; exact Vtg].
 Qed.
 Print Assumptions C02_final_root_only.
+
+(* Conversely the walk is complete: from a shipped root that verifies itself, ANY chain of such hops that the
+   server serves is followed to its end - to the root after which nothing newer is available - provided the
+   configured update limit is not reached (the model's fuel just has to exceed the number of hops). Together with
+   C02_chain: the root a cycle trusts is exactly the end of the chain served. *)
+Theorem C02_chain_followed : forall fx c r0 l,
+  cy_shipped c = CRoot r0 -> root_verify r0 0 (r_sigs r0) = true ->
+  path (cy_cfg c) (cy_srv c) r0 l -> stopped (cy_cfg c) (cy_srv c) (last_root r0 l) ->
+  (length l < c_fuel (cy_cfg c))%nat ->
+  r_version (last_root r0 l) < update_limit fx (r_version r0) (c_max_root_updates (cy_cfg c)) ->
+  final_root fx c = Some (last_root r0 l).
+Proof. exact chain_followed. Qed.
+Print Assumptions C02_chain_followed.
+
+(* non-vacuity: the one-hop chain of the F5 witness (root 1 -> root 2 with a replaced timestamp key) *)
+Example C02_chain_followed_example :
+  final_root fixed (w_cyc true 5 4 None) = Some (w_root 2 4)
+  /\ path w_cfg (w_srv true 5 4) (w_root 1 3) [w_root 2 4]
+  /\ stopped w_cfg (w_srv true 5 4) (w_root 2 4).
+Proof.
+  split; [vm_compute; reflexivity|]. split.
+  - split; [|exact I]. eexists. split; [vm_compute; reflexivity|]. cbn. repeat split; vm_compute; reflexivity.
+  - unfold stopped. vm_compute. left. reflexivity.
+Qed.
